@@ -213,6 +213,7 @@ def rules(ctx):
         Rule("R19.b", "an aggregate passed by value arrives whole: every eightbyte that holds a member or a tag is classified, at its offset in the whole argument (shared with C19)", 30, _reuse("c19", "r19b")),
         Rule("R18.a", "type ids: each kind's own discriminant and row index (core.println prints through `any` and these tables; shared with C18)", 60, _reuse("c18", "r18a")),
         Rule("R18.h", "the type id written into an `any` is the id of the value's declared type (shared with C18)", 2, _reuse("c18", "r18h")),
+        Rule("R11.h", "arms of a value-yielding switch: value arms carry their value to the exit, jumping arms make no jump to it (shared with C11)", 4, _reuse("c11", "r11h")),
         Rule("R11.c", "switch dispatch wiring and tag uses (shared with C11)", 9, _reuse("c11", "r11c")),
         Rule("R11.d", "variants of one enum get pairwise distinct discriminants (shared with C11)", 1, _reuse("c11", "r11d")),
         Rule("R03.a", "every jump to a scope target passes the defer unwinder (shared with C03)", 2, _reuse("c03", "r03a")),
